@@ -198,6 +198,8 @@ class BaseDevice(ABC):
         bounds = list(bounds)
       elif len(bounds) == 1:
         bounds = [bounds[0], bounds[0]]
+      else:
+        raise ValueError('bounds must have length 1, 2 or be a (%d, 2) table' % (len(self),))
       if isinstance(bounds[0], numbers.Number):
         bounds[0] = np.repeat(bounds[0], len(self))
       if isinstance(bounds[1], numbers.Number):
